@@ -73,6 +73,19 @@ CHECKS["C09"] = (
     "DESIGN.md 2/C09",
 )
 
+CHECKS["C12"] = (
+    "stateless pre-emption-bounded schedule exploration of the real public API under a deterministic sys.monitoring scheduler; exhaustive operation histories on reused worker objects (all sequences from fresh objects + de Bruijn windows); exhaustive argument-purity sweep",
+    "Schedules: for each harness of 2 (thorough also 3) public API calls every interleaving with at most 1 pre-emption (call granularity; thorough: line granularity for all 45 unordered pairs, 2 pre-emptions at call granularity) is executed on real threads under a baton-passing scheduler whose scheduling points are the monitoring events of mappyfile's own code objects; each thread's result must equal the sequential result; no deadlock. Histories: every sequence of 14 operations on one reused Parser/MapfileToDict/PrettyPrinter/Validator set from fresh objects to depth 2 (thorough 3), plus every window of 3 (4) consecutive operations inside one long de Bruijn history, must answer exactly as fresh objects do. Purity: every public call on every S1/S4/corpus dictionary under three load-flag sets leaves a type-strict deep snapshot of its argument unchanged.",
+    "Trusted: third-party code is atomic with respect to thread switches; at most 3 (thorough 8) scheduling points per thread and code location; 2-3 threads instead of 16. A failing schedule is re-run twice before it is reported.",
+    "DESIGN.md 2/C12, 1.8",
+)
+CHECKS["C18"] = (
+    "exhaustive enumeration of update(d1, d2, overwrite) over a bounded dictionary grammar and of find/findall/findunique/findkey over all item lists, queries and key paths up to a size bound, against reference implementations",
+    "All 169 x 225 (d1, d2) combinations over two keys and a 13/15-element value grammar (scalars, scalar lists, nested dicts to depth 2, lists of dicts with None placeholders and __delete__ markers), restricted to specified (type-compatible) patches, in both overwrite modes, on plain and Mapfile dictionaries; all item lists of length <= 3 over {no key, road, roads, x} x 6 queries for find/findall/findunique, all existing key paths of length <= 3 for findkey. Result identity, value and the before/after state of every argument are compared with reference implementations written from the property text.",
+    "Trusted: the reference implementations in mcf/props/c18.py; unspecified inputs (type-incompatible patches, deleting missing keys, top-level __delete__) are excluded.",
+    "DESIGN.md 2/C18",
+)
+
 NOT_YET = {}
 
 
